@@ -925,9 +925,14 @@ func ruleStickyAfterFinish(c *Ctx, rule string) {
 	c.rule(rule, "sticky failure after finish: both reassembly functions return the stored read error first and record every non-nil error they return; the client's CloseSend returns the stored outcome without blocking once the done signal is closed")
 	w := c.W
 	a := w.Anchors()
-	for _, fn := range []*ssa.Function{a.ClientReasm, a.ServerReasm} {
-		if !c.need(rule, "reassembly function", fn) {
+	for i, core := range []*ssa.Function{a.ClientReasm, a.ServerReasm} {
+		if !c.need(rule, "reassembly function", core) {
 			continue
+		}
+		// the function the read methods call: the reassembly function itself, or a wrapper split off it
+		fn := []*ssa.Function{a.ClientReasmEntry, a.ServerReasmEntry}[i]
+		if fn == nil {
+			fn = core
 		}
 		name := w.Short(fn)
 		rn := recvNamed(fn)
@@ -946,6 +951,13 @@ func ruleStickyAfterFinish(c *Ctx, rule string) {
 				for _, f := range factsAt(ret) {
 					if x, op, y, ok := cmpFact(f); ok && op == token.NEQ && isFieldLoad(x, errField) && isNilConst(y) {
 						okSticky = !dominatesAnyDequeue(fn, ret)
+						if fn != core {
+							allInstrsLocal(fn, func(in ssa.Instruction) {
+								if call, ok := in.(*ssa.Call); ok && staticCallee(call) == core && dominates(call, ret) {
+									okSticky = false
+								}
+							})
+						}
 					}
 				}
 			}
@@ -968,8 +980,43 @@ func ruleStickyAfterFinish(c *Ctx, rule string) {
 				def = d
 			}
 		})
-		s := analyseReasm(fn)
-		c.check(okRec && def != nil && s.deq != nil && dominates(def, s.deq), rule, name+": records every error it returns", w.Pos(fn.Pos()), "deferred: if err != nil { "+errField.Field+" = err }", "errors returned by the reassembly function are not recorded as the sticky read error")
+		s := analyseReasm(core)
+		recorded := okRec && def != nil && s.deq != nil && dominates(def, s.deq)
+		if !recorded && fn != core {
+			// wrapper form: data, ok, err := core(); if err != nil { readErr = err }; return data, ok, err
+			var coreCall *ssa.Call
+			allInstrsLocal(fn, func(in ssa.Instruction) {
+				if call, ok := in.(*ssa.Call); ok && staticCallee(call) == core {
+					coreCall = call
+				}
+			})
+			if coreCall != nil {
+				errEx := extractOf(coreCall, coreCall.Call.Signature().Results().Len()-1)
+				stored := false
+				for _, st := range storesToField(fn, errField) {
+					if st.Parent() == fn && errEx != nil && stripConv(st.Val) == ssa.Value(errEx) {
+						for _, f := range factsAt(st) {
+							if x, op, y, ok := cmpFact(f); ok && op == token.NEQ && isNilConst(y) && stripConv(x) == ssa.Value(errEx) {
+								stored = true
+							}
+						}
+					}
+				}
+				// every return after the call returns exactly the core's error
+				onlyCore := true
+				for _, ret := range returnsOf(fn) {
+					if !dominates(coreCall, ret) {
+						continue
+					}
+					t := returnTuple(ret)
+					if e := t[len(t)-1]; e == nil || stripConv(e) != ssa.Value(errEx) {
+						onlyCore = false
+					}
+				}
+				recorded = stored && onlyCore
+			}
+		}
+		c.check(recorded, rule, name+": records every error it returns", w.Pos(fn.Pos()), "deferred: if err != nil { "+errField.Field+" = err }", "errors returned by the reassembly function are not recorded as the sticky read error")
 	}
 	// client CloseSend
 	if cs := w.methodFn(a.CS, "CloseSend"); cs != nil {
@@ -980,6 +1027,23 @@ func ruleStickyAfterFinish(c *Ctx, rule string) {
 				for _, st := range sel.States {
 					if fr, _, ok := loadedField(st.Chan); ok && fr == done {
 						okNB = true
+					}
+				}
+			}
+			// or through a probe helper that receives without blocking
+			if call, ok := in.(*ssa.Call); ok && okD {
+				if ch, isP := recvPredicateCall(call); isP {
+					if fr, _, ok := loadedField(ch); ok && fr == done {
+						blocks := mayExecute(helperCallee(call), func(x ssa.Instruction) bool {
+							if sel, isSel := x.(*ssa.Select); isSel && sel.Blocking {
+								return true
+							}
+							u, isU := x.(*ssa.UnOp)
+							return isU && u.Op == token.ARROW
+						}, 1)
+						if !blocks {
+							okNB = true
+						}
 					}
 				}
 			}
